@@ -374,7 +374,18 @@ theorem CInv.step_stale (c : Chunk) (l : List (Int × Hist)) (inv : CInv c l) (h
     (hs : h.stale = true) (hfl : h.float = c.float) : CInv (c.appendRaw t h) ((t, h) :: l) := by
   rw [appendRaw_cons_stale c hne t h hs]
   have hsum : h.sum = staleBits := by simpa [Hist.stale] using hs
-  refine ⟨⟨⟨rfl, fun _ => hsum, fun h' => by simp [hs] at h'⟩, inv.rep⟩, inv.pS, inv.nS, ?_, ?_, ?_⟩
+  refine ⟨⟨⟨rfl, fun _ => hsum, fun h' => by simp [hs] at h'⟩, inv.rep⟩, inv.pS, inv.nS, ?_, ?_, ?_, ?_, ?_⟩
+  rotate_left 3
+  · intro s hs' hst
+    rcases List.mem_cons.1 hs' with rfl | hs'
+    · exact ⟨rfl, rfl, rfl, rfl⟩
+    · exact inv.staleForm s hs' hst
+  · intro s hs' hst
+    obtain ⟨s0, r0, hrev⟩ := List.exists_cons_of_ne_nil hne
+    have : c.rev.getLast? = some s := by
+      rw [hrev] at hs' ⊢
+      simpa [List.getLast?_cons_cons] using hs'
+    exact inv.staleFirst s this hst
   · intro p hp; rcases List.mem_cons.1 hp with rfl | hp
     · exact fun h' => by simp [hs] at h'
     · exact inv.wf p hp
